@@ -8,12 +8,13 @@ import "time"
 // and a leader that can reach one must NOT step down or leave the quorum timer running.
 
 // vReachableMajority: the leader itself (if voter) plus the voters whose replication reports contact form a majority.
-func vReachableMajority(r *Raft, l *leader) bool {
+// (repls: the replications as they were when the leader was set up - a leader that steps down stops and drops them.)
+func vReachableMajority(r *Raft, repls map[uint64]*replication) bool {
 	voters, reach := 0, 0
 	for id, n := range r.configs.Latest.Nodes {
 		if n.Voter {
 			voters++
-			if id == r.nid || l.repls[id].status.noContact.IsZero() {
+			if id == r.nid || repls[id].status.noContact.IsZero() {
 				reach++
 			}
 		}
@@ -27,13 +28,17 @@ func VH_C17_checkQuorum() {
 	r, l, _ := vMkLeader(n, 2, true)
 	vAssume(r.configs.Latest.numVoters() >= 1)
 	r.configs.Committed = r.configs.Latest
+	repls := map[uint64]*replication{}
+	for id, repl := range l.repls {
+		repls[id] = repl
+	}
 	if vBool("quorumWait.positive") {
 		r.quorumWait = time.Second
 	} else {
 		r.quorumWait = 0
 	}
 	// the quorum timer is armed exactly while the leader knows a majority is unreachable and is waiting
-	l.timer.active = !vReachableMajority(r, l) && r.quorumWait > 0
+	l.timer.active = !vReachableMajority(r, repls) && r.quorumWait > 0
 	var st *replicationStatus
 	k := vChoice(n - 1)
 	idx := 0
@@ -51,7 +56,7 @@ func VH_C17_checkQuorum() {
 	l.checkReplUpdates(replUpdate{status: st, update: u})
 	vAssert(st.noContact.IsZero() == u.time.IsZero(), "Q0-report-recorded")
 	vAssert(r.term == term0, "Q-term-unchanged")
-	if vReachableMajority(r, l) {
+	if vReachableMajority(r, repls) {
 		vReach("reachable")
 		vAssert(r.state == Leader && r.leader == r.nid, "Q1-leader-with-reachable-majority-stays")
 		vAssert(!l.timer.active, "Q1-quorum-timer-stopped-when-majority-reachable")
@@ -73,7 +78,7 @@ func VH_C17_checkQuorum() {
 		}
 		l.timer.active = false
 		l.onTimeout()
-		if vReachableMajority(r, l) {
+		if vReachableMajority(r, repls) {
 			vReach("timeout-stays")
 			vAssert(r.state == Leader, "Q3-timer-expiry-with-reachable-majority-stays")
 		} else {
